@@ -1,7 +1,7 @@
 (** Evaluator glue for C07: replays a whole history on the model and compares
     every search response and the shape of the state with what the real
     queryLog did. *)
-From AGH Require Import Base.Run Model.QLogFile Model.QLog.
+From AGH Require Export Base.Run Model.QLogFile Model.QLog.
 Local Open Scope Z_scope.
 
 Definition E := Build_entry.
